@@ -10,6 +10,7 @@ import (
 	"strings"
 	"time"
 
+	"github.com/mandykoh/prism/meta"
 	"github.com/mandykoh/prism/meta/icc"
 )
 
@@ -343,6 +344,17 @@ func genC06Files(c *ctx) []*mfile {
 	for n := 1; n <= c.n(4, 5); n++ {
 		perms = append(perms, permutations(n)...)
 	}
+	// exactly 255 / 254 chunks (the most the one-byte sequence numbers can express), in order and shuffled
+	for k, nch := range []int{255, 255, 254, 129} {
+		o := jpegOpt{w: 40, h: 30, precision: 8, ncomp: 3, nBefore: 1, nAfter: 1, body: 100, realTables: tables, iccAfterSOF: k == 2,
+			icc: genProfile(rng, nch*(1+k)-k, false), chunkSize: 1 + k}
+		if k == 1 {
+			o.order = rng.Perm(nch)
+		}
+		f := buildJPEG(rng, o)
+		f.Name = fmt.Sprintf("jpeg-icc-%d-chunks-%d", nch, k)
+		out = append(out, f)
+	}
 	for i := 0; i < len(perms)+c.n(120, 1500); i++ {
 		var o jpegOpt
 		o = jpegOpt{w: uint16(1 + rng.Intn(6000)), h: uint16(1 + rng.Intn(6000)), precision: 8, ncomp: 3, progressive: rng.Intn(2) == 0,
@@ -480,6 +492,22 @@ func junkInputs(c *ctx) [][2]interface{} {
 	return out
 }
 
+// the same segmentations, delivered hesitantly: (0, nil) reads in between, never two in a row
+func hesitantScheds(c *ctx, n int) []sched {
+	a := fixedSched(n, 1, false, "1+hesitant/2")
+	a.Hesitant = 2
+	b := fixedSched(n, 7, true, "7+eof+hesitant/3")
+	b.Hesitant = 3
+	d := randomSched(c.rng, n, false)
+	d.Hesitant, d.Name = 2, "random+hesitant/2"
+	e := allAtOnce
+	e.Hesitant, e.Name = 2, "all+hesitant/2"
+	if n > 30000 {
+		return []sched{d, e}
+	}
+	return []sched{a, b, d, e}
+}
+
 func scheds(c *ctx, n int, full bool) []sched {
 	rng := c.rng
 	out := []sched{allAtOnce, fixedSched(n, 1, false, "1"), fixedSched(n, 7, false, "7"), fixedSched(n, 4096, false, "4096"), randomSched(rng, n, rng.Intn(2) == 0)}
@@ -574,6 +602,7 @@ func init() {
 			})
 		}
 		c.runJobs(jobs)
+		heldResults(c, "C06", genC06Files(c))
 	}
 
 	// ---------- C07 ----------
@@ -744,7 +773,7 @@ func init() {
 			c.res.sample(map[string]interface{}{"file": f.Name, "bytes": len(f.Data)})
 			for _, wh := range ws {
 				wh := wh
-				ss := scheds(c, len(f.Data), true)
+				ss := append(scheds(c, len(f.Data), true), hesitantScheds(c, len(f.Data))...)
 				if len(f.Data) > 30000 && !c.thorough {
 					ss = ss[2:] // no 1- and 7-byte delivery of large files in the quick tier
 				}
@@ -783,7 +812,7 @@ func init() {
 		}
 		for _, p := range profiles {
 			p := p
-			ss := scheds(c, len(p), true)
+			ss := append(scheds(c, len(p), true), hesitantScheds(c, len(p))...)
 			jobs = append(jobs, func(w *worker) {
 				base := iccOutcome(p, allAtOnce, 4096)
 				for _, s := range ss {
@@ -1030,6 +1059,48 @@ func init() {
 						Input: map[string]interface{}{"loads": names, "stream": i, "bytes": len(ins[i].data)}, Got: fmt.Sprintf("%d bytes, first difference at %d, end=%s", len(got), firstDiff(got, ins[i].data), end), Want: fmt.Sprintf("%d bytes", len(ins[i].data))})
 				}
 			}
+		}
+	}
+}
+
+// Results are values: what an earlier Load returned must read the same after any number of later Loads
+// (a loader that keeps its output in storage it reuses would change it under the caller's feet).
+func heldResults(c *ctx, prop string, files []*mfile) {
+	type held struct {
+		f     *mfile
+		which string
+		md    *meta.Data
+		first string
+	}
+	var hs []held
+	for _, f := range files {
+		if len(hs) >= c.n(120, 600) {
+			break
+		}
+		if len(f.Data) > 200000 {
+			continue
+		}
+		which := f.Fmt
+		if len(hs)%3 == 2 {
+			which = "auto"
+		}
+		var md *meta.Data
+		func() {
+			defer func() { recover() }()
+			md, _, _ = loaders[which](bytes.NewReader(f.Data))
+		}()
+		if md == nil {
+			continue
+		}
+		hs = append(hs, held{f, which, md, mdString(md)})
+	}
+	for i, h := range hs {
+		again := mdString(h.md)
+		c.res.count("held-result", h.which+string(h.f.Data), true)
+		if again != h.first {
+			c.res.fail(Failure{Class: prop + ":held-result:" + h.which, Desc: fmt.Sprintf("the metadata returned for %s reads differently after %d later loads of other files than it did when it was returned", h.f.Name, len(hs)-1-i),
+				Input: map[string]interface{}{"file": shortHex(h.f.Data), "loader": h.which, "history": "load this file, keep the result, load the other files, read the result again"}, Got: short(again, 200), Want: short(h.first, 200)})
+			break
 		}
 	}
 }
